@@ -20,6 +20,7 @@ RULE = (
     "configs (min, max, shrink, grow, int/float; value at min, at max, min==max), 1..30 consecutive rl_hp mutation "
     "rounds, seed); every (agent, round) is one evaluation of the oracle. Non-trivial = at least one mutation changed "
     "a value, at least one hit a bound or was a learning rate, and population size >= 2; distinct = distinct case descriptions"
+    " Added: RSNorm-wrapped populations (single-agent learners), float gamma ranges, a tournament round between the mutation rounds of every third case (half of them on agents whose optimizers never step), and for gamma / batch_size / learning rates / v_min a constructor-twin comparison of one learn step (with a control comparison before the mutation)"
 )
 ASSUMPTIONS = [
     "the shrink/grow branch and the sampled hyperparameter are read from the recorded torch.rand / torch.randperm variates "
@@ -27,6 +28,7 @@ ASSUMPTIONS = [
     "expected value = dtype(min(max(own_old_value * factor, min), max)) evaluated in Python float arithmetic like the code; "
     "factor pairs include both-below-one and both-above-one, ranges include negative ones (RainbowDQN v_min)",
     "learning-rate effect is read from param_groups of the optimizer objects the agent holds after the call",
+    "constructor twin = a new agent built by the route the population was built by, given the agent's current hyperparameter values, every network leaf (module leaf walker), tensor attributes, optimizer moments and update counter; learn() of the algorithm CLASS is called on both under the same RNG state; returned losses (1e-5 rel) and updated weights (1e-5 rel + 1e-6) must agree; no verdict where the same comparison failed before the mutation (hidden state the twin does not carry)",
 ]
 REQUIRED_COUNTERS = ["mutations_checked", "other_agents_unchanged_checks", "lr_group_checks", "variates_recorded", "effect_twin_checks"]
 CASE_TIMEOUT_S = 1500
